@@ -4,6 +4,7 @@ import analysis as A
 import common as K
 import sqlmod
 import cmpeval
+import sqlrules
 import dtable
 
 CANON = {"CreatedAtFirst": ["created_at", "processed_at", "id"], "ProcessedAtFirst": ["processed_at", "created_at", "id"]}
@@ -300,3 +301,6 @@ def run(ctx, rep):
     clause_orders(prog, rep, sch, sites)
     clause_pagination(prog, rep)
     clause_pointer(prog, rep)
+    # a re-saved message must take its new sort keys in both backends (SQLite: the upsert assigns every non-key column)
+    rep.clause("C18.4 the messages upsert assigns every non-key column (created_at / processed_at sort keys follow a re-save, as in the memory backend)")
+    sqlrules.clause_upserts(prog, rep, sch, sites, only_tables=("messages",))
